@@ -76,7 +76,9 @@ def _table(ctx: Ctx, rule: str, dt, fi, args, what: str, limit: int = 4000):
 
 
 def _params(fi) -> list[str]:
-    return [a.arg for a in fi.node.args.args if a.arg not in ("self", "cls")]
+    """the parameters a caller must pass (opt-in parameters with defaults are evaluated with their defaults)"""
+    from .c06 import required_params
+    return required_params(fi, drop_self=True)
 
 
 # ---------------------------------------------------------------------------------------------------- R16.1
@@ -97,6 +99,48 @@ def _unwrap_path(x):
                 continue
         break
     return x
+
+
+def _flat_syms(x):
+    if isinstance(x, Sym):
+        yield x
+    elif isinstance(x, (list, tuple)):
+        for y in x:
+            yield from _flat_syms(y)
+
+
+def _own_element(term, lp: str, loop_elems: dict) -> str:
+    """is `term` the element that the generic iteration lp works on?  'own': subscripted by the position of lp, or (part of) the
+    element term of lp (an element handed on from an earlier generic iteration); 'wrong': an element selected by a literal index or
+    by a shifted position (positive evidence); 'unknown' otherwise"""
+    from .c06 import SubV, lin_of
+    own = {x.path for x in _flat_syms(loop_elems.get(lp))}
+    if isinstance(term, Sym) and term.path in own:
+        return "own"
+    if isinstance(term, SubV):
+        k = term.key
+        if isinstance(k, Sym) and k.path == lp:
+            return "own"
+        lk = lin_of(k)
+        if isinstance(k, int) or (lk is not None and lp in lk and lk != {lp: 1}):
+            return "wrong"
+    return "unknown"
+
+
+def _mentions_call(term, fn: str, depth: int = 0) -> bool:
+    """does the term contain the result of a call of fn (the value was derived from it)?"""
+    from .c06 import CallV, LinV, SliceV, SubV
+    if depth > 8:
+        return False
+    if isinstance(term, CallV):
+        return term.fn == fn or any(_mentions_call(a, fn, depth + 1) for a in list(term.args) + [x for _k, x in term.kw] + [term.recv])
+    if isinstance(term, (SubV, SliceV)):
+        return _mentions_call(term.base, fn, depth + 1)
+    if isinstance(term, LinV):
+        return any(_mentions_call(t, fn, depth + 1) for t in term.terms)
+    if isinstance(term, (list, tuple)):
+        return any(_mentions_call(t, fn, depth + 1) for t in term)
+    return False
 
 
 def _split_generic(lst):
@@ -122,6 +166,22 @@ def r16_1(ctx: Ctx) -> None:
     rd = pm.func("_read_image_data")
     for d in rd.decorators:
         ctx.violation("R16.1", rd.short, "decorator " + d, rd.where(), f"_read_image_data is wrapped by {d}: the embedded bytes may not be the file's current bytes")
+    # call-graph closure: every function through which the file's bytes flow (it reads a file or calls, directly or transitively, a function
+    # that does) must be unmemoised
+    readers = {rd.short}
+    for _round in range(4):
+        for f in pm.iter_funcs():
+            if f.short in readers:
+                continue
+            called = {dotted(c.func).split(".")[-1] for c in ast.walk(f.node) if isinstance(c, ast.Call)}
+            if called & ({x.split(".")[-1] for x in readers} | {"read_bytes"}) and (f.module == rd.module or f.module.endswith("figure_service")):
+                readers.add(f.short)
+    for f in pm.iter_funcs():
+        if f.short in readers and f.short != rd.short:
+            for d in f.decorators:
+                if d.split(".")[-1].split("(")[0] in ("lru_cache", "cache", "cached", "memoize", "cached_property"):
+                    ctx.violation("R16.1", f.short, "decorator " + d, f.where(), f"{f.short}, through which the image bytes are read, is memoised by {d}: the embedded bytes may not be the file's current bytes")
+    ctx.instance("R16.1", rd.where(), f"functions through which file bytes flow ({sorted(readers)}) carry no memoising decorator")
     opens = [c for c in walk_no_nested(rd.node) if isinstance(c, ast.Call) and dotted(c.func).split(".")[-1] == "open"]
     rets = [r for r in walk_no_nested(rd.node) if isinstance(r, ast.Return) and r.value is not None]
     from ..astmatch import resolve
@@ -181,7 +241,7 @@ def _read_figure_flow(ctx: Ctx) -> None:
     if not full:
         ctx.gap("R16.1", "rtf_read_figure returns on no evaluated path")
         return
-    bad = None
+    bad = unrec = None
     n_ok = n_gen = 0
     for v, r in full:
         ret = r.ret
@@ -203,19 +263,29 @@ def _read_figure_flow(ctx: Ctx) -> None:
             pairs.append((d_in[lp][0], f_in[lp][0], lp))
         for de, fe, lp in pairs:
             if not (isinstance(de, CallV) and de.fn == "_read_image_data" and len(de.args) == 1):
-                bad = bad or f"a data element is `{str(dt.show(de))[:70]}`, not the unchanged result of _read_image_data(path)"
+                if _mentions_call(de, "_read_image_data"):
+                    bad = bad or f"a data element is `{str(dt.show(de))[:70]}`, not the unchanged result of _read_image_data(path)"
+                else:
+                    unrec = unrec or f"a data element `{str(dt.show(de))[:70]}` was not re-identified as the result of _read_image_data(path)"
                 continue
             if not (isinstance(fe, CallV) and fe.fn == "_determine_image_format" and len(fe.args) == 1):
-                bad = bad or f"a format element is `{str(dt.show(fe))[:70]}`, not the result of _determine_image_format(path)"
+                if _mentions_call(fe, "_determine_image_format") or _mentions_call(fe, "_read_image_data"):
+                    bad = bad or f"a format element is `{str(dt.show(fe))[:70]}`, not the result of _determine_image_format(path)"
+                else:
+                    unrec = unrec or f"a format element `{str(dt.show(fe))[:70]}` was not re-identified as the result of _determine_image_format(path)"
                 continue
             src_d, src_f = _unwrap_path(de.args[0]), _unwrap_path(fe.args[0])
             if not (isinstance(src_d, Sym) and isinstance(src_f, Sym) and src_d.path == src_f.path):
                 bad = bad or f"data is read from `{dt.show(src_d)}` but the format is determined from `{dt.show(src_f)}`"
                 continue
             if lp is not None:
-                if not (isinstance(src_d, SubV) and isinstance(src_d.base, Sym) and src_d.base.path == ps[0] and isinstance(src_d.key, Sym) and src_d.key.path == lp):
+                kind = _own_element(src_d, lp, r.loop_elems)
+                if kind == "wrong" or (kind == "own" and isinstance(src_d, SubV) and isinstance(src_d.base, Sym) and src_d.base.path != ps[0] and isinstance(src_d.key, Sym) and src_d.key.path == lp):
                     bad = bad or f"iteration {lp} reads `{dt.show(src_d)}`, not the current element of {ps[0]}"
                     continue
+                if kind != "own":
+                    ctx.gap("R16.1", f"rtf_read_figure: iteration {lp} reads `{dt.show(src_d)}`, which was not re-identified as the current element of {ps[0]}")
+                    return
             elif src_d.path != ps[0]:
                 bad = bad or f"a single path is read from `{dt.show(src_d)}`, not from {ps[0]}"
                 continue
@@ -225,6 +295,8 @@ def _read_figure_flow(ctx: Ctx) -> None:
                  + (f", disagreement: {bad}" if bad else ""))
     if bad:
         ctx.violation("R16.1", rf.short, "figure data flow", rf.where(), f"rtf_read_figure no longer returns each file's bytes unchanged and in the given order: {bad[:200]}")
+    elif unrec:
+        ctx.gap("R16.1", "rtf_read_figure: " + unrec)
     elif not n_gen:
         ctx.gap("R16.1", "rtf_read_figure: no loop over the given paths was re-identified")
 
@@ -862,11 +934,14 @@ def _figure_loop(ctx: Ctx, fi, rows, dt, fig_obj: str) -> None:
                 """(sequence term, index term) of an element of a sequence"""
                 return (x.base, x.key) if isinstance(x, SubV) else (None, None)
             (dseq, dk), (fseq, fk) = elem_of(d_), elem_of(f_)
-            own = isinstance(dk, Sym) and isinstance(fk, Sym) and dk.path == lp and fk.path == lp
+            kinds = {_own_element(d_, lp, r.loop_elems), _own_element(f_, lp, r.loop_elems)}
+            own = kinds == {"own"}
             src_ok = isinstance(dseq, SubV) and isinstance(fseq, SubV) and isinstance(dseq.base, CallV) and dseq.base.fn == "rtf_read_figure" and fseq.base is dseq.base or \
                 (isinstance(dseq, SubV) and isinstance(fseq, SubV) and isinstance(dseq.base, Sym) and isinstance(fseq.base, Sym) and dseq.base.path == fseq.base.path and "rtf_read_figure" in dseq.base.path)
-            if not own:
+            if "wrong" in kinds:
                 bad.setdefault(f"figure arguments {[str(dt.show(d_))[:40], str(dt.show(f_))[:40]]}", f"iteration {lp} encodes data `{str(dt.show(d_))[:60]}` / format `{str(dt.show(f_))[:60]}`, expected the iteration's own elements")
+            elif not own:
+                gaps[f"the figure data / format of iteration {lp} (`{str(dt.show(d_))[:50]}`, `{str(dt.show(f_))[:50]}`) were not re-identified as the iteration's own elements"] = None
             elif not src_ok:
                 gaps[f"the figure data / format (`{str(dt.show(d_))[:50]}`, `{str(dt.show(f_))[:50]}`) could not be traced to one rtf_read_figure result"] = None
             elif (dseq.key, fseq.key) != (0, 1):
